@@ -389,6 +389,25 @@ def ext_precond(db, ctx):
                 ctx.ob("%s|DoubleArrayBuilder::build" % f.short(), ok,
                        "%s: yada::DoubleArrayBuilder::build(&%s) panics on an empty key set; dominating conditions: %s — "
                        "non-empty check present: %s" % (f.short(), nm, shown, ok), fn=f, site=n.get("sp"))
+                # second precondition: yada terminates keys with a 0 byte, so a key containing NUL is truncated at it or collides with
+                # another key's terminator (assertion failures inside the builder).  A rejecting NUL test must dominate the call, or the
+                # record parser must reject such surfaces.
+                def nul_test(cond):
+                    from ..db import walk_x
+                    for y, _ in walk_x(cond):
+                        if y.get("k") == "MethodCall" and y.get("method") in ("contains", "any", "find", "position", "memchr") :
+                            for z, _ in walk_x(y):
+                                pz = peel(z)
+                                if pz.get("k") == "Lit" and (pz.get("v") == 0 or pz.get("v") == chr(0) or pz.get("v") == [0]) and pz.get("t") != "bool":
+                                    return True
+                    return False
+                fv = db.view(f)
+                nul_ok = any(ek == "err" and nul_test(cond) for ifn, cond, pol, ek, ps_ in guarded_exits(fv.hir))
+                pr = db.view(db.one("parse_record", "LexiconReader"))
+                nul_ok = nul_ok or any(ek == "err" and nul_test(cond) for ifn, cond, pol, ek, ps_ in guarded_exits(pr.hir))
+                ctx.ob("%s|DoubleArrayBuilder::build|nul-free-keys" % f.short(), nul_ok,
+                       "%s: keys handed to yada must not contain a NUL byte (CSV escape \\u0000): rejecting NUL test before the call or in parse_record: %s"
+                       % (f.short(), nul_ok), fn=f, site=n.get("sp"))
     ctx.floor(1)
 
 
@@ -593,3 +612,91 @@ def axis(db, ctx):
                             % tuple(sorted(validated | required)) if len(validated | required) == 2 else ""),
                sig="required=%s;validated=%s" % (sorted(required), sorted(validated)))
     ctx.floor(2)
+
+
+SUB_ALLOW = {
+    ("LexiconReader::write_pos_table", "self.pos.len()", "self.start_pos"):
+        "start_pos is set to pos.len() by preload_pos and the POS table only grows afterwards (C12.builder|preload_pos|start_pos)",
+}
+
+
+@rule("C06.unsigned-sub", "no unsigned subtraction in the compiler can underflow on input data: every `A - B` in the build closure is dominated by a "
+                          "rejecting comparison of the same two quantities (unreachable when B = A + 1), or subtracts an earlier value of a "
+                          "monotonically growing counter, or is in the audited table")
+def unsigned_sub(db, ctx):
+    from ..inline import nf
+    from ..flow import holds_at
+    from ..db import deref_all
+    g, entries, clo = build_closure(db)
+    UNS = {"usize", "u32", "u16", "u8", "u64"}
+    n = 0
+    for k in sorted(clo):
+        f = db.fns[k]
+        if f.pkg != "sudachi" or not f.hir or "::test" in k or ("::dic::build::" not in k and "::dic::header::" not in k):
+            continue
+        for x, ps in walk(f.hir):
+            if x.get("k") not in ("Binary", "AssignOp") or x.get("op") != "Sub" or x.get("mac"):
+                continue
+            ty = x.get("ty") if x.get("k") == "Binary" else x["l"].get("ty")
+            if ty not in UNS or (lit_int(x["l"]) is not None and lit_int(x["r"]) is not None):
+                continue
+            a, b = nf(x["l"]), nf(x["r"])
+            n += 1
+            why = None
+            # (1) dominated by a comparison of the same two quantities
+            pcs = path_conditions(x["id"], f.hir) or []
+
+            def ev_at(delta):
+                def ev(atom):
+                    c = cmp_atom(atom)
+                    if not c:
+                        return None
+                    l_, r_ = nf(c[1]), nf(c[2])
+                    if l_ == b and r_ == a:
+                        return holds(c[0], delta, 0)       # B = A + delta
+                    if l_ == a and r_ == b:
+                        return holds(c[0], 0, delta)
+                    return None
+                return ev
+            if holds_at(pcs, ev_at(1)) is False and holds_at(pcs, ev_at(0)) is not False:
+                why = "dominated by a comparison that excludes %s > %s" % (b, a)
+            # (2) literal subtrahend guarded by a comparison of A with a literal
+            if why is None and lit_int(x["r"]) is not None:
+                kv = lit_int(x["r"])
+
+                def ev_lit(val):
+                    def ev(atom):
+                        c = cmp_atom(atom)
+                        if not c:
+                            return None
+                        if nf(c[1]) == a and lit_int(c[2]) is not None:
+                            return holds(c[0], val, lit_int(c[2]))
+                        if nf(c[2]) == a and lit_int(c[1]) is not None:
+                            return holds(c[0], lit_int(c[1]), val)
+                        return None
+                    return ev
+                if holds_at(pcs, ev_lit(kv - 1)) is False:
+                    why = "reached only when %s >= %d" % (a, kv)
+            # (3) earlier value of a counter that only grows
+            if why is None:
+                la, lb = peel_casts(x["l"]), deref_all(x["r"])
+                if la.get("k") == "Path" and la.get("res") == "local" and isinstance(lb, dict) and lb.get("k") == "Path" and lb.get("lid") == la.get("lid") and \
+                        peel_casts(x["r"]).get("lid") != la.get("lid"):
+                    grows_only = all(y.get("op") == "Add" for y, _ in walk(f.hir) if y.get("k") == "AssignOp" and peel(y["l"]).get("lid") == la.get("lid")) and \
+                        not any(y.get("k") == "Assign" and peel(y["l"]).get("lid") == la.get("lid") for y, _ in walk(f.hir))
+                    if grows_only:
+                        why = "`%s` is an earlier value of the counter `%s`, which is only ever increased" % (render(x["r"]), render(x["l"]))
+            if why is None:
+                for (fn_, a_, b_), reason in SUB_ALLOW.items():
+                    if f.short().endswith(fn_) and a == a_ and b == b_:
+                        why = "audited: " + reason
+            ctx.ob("%s|%s - %s" % (f.short(), a, b), why is not None,
+                   "%s: unsigned `%s` — %s" % (f.short(), render(x), why or "NOT protected: when the right operand exceeds the left one the debug build panics "
+                                               "('attempt to subtract with overflow') and the release build wraps"), fn=f, site=x.get("sp"))
+    ctx.floor(4)
+
+
+@rule("C06.field-source", "the compiled word-info records carry, in each slot, the attribute the loader reads from it (re-evaluation of C05.field-source: a length slot filled from the wrong attribute compiles and loads, and fails only when a split is taken)")
+def field_source_reeval(db, ctx):
+    from . import C05
+    C05.field_source(db, ctx)
